@@ -25,7 +25,7 @@ NOT MODELLED (reached through T3 and the oracle only):
     (the re-export list), docstrings, `raw_page` / `done` properties of _message.py.j2;
   * `_pb_options` of enums (`allow_alias`): compared on the run-time descriptor by the oracle;
   * message-level order of `oneof_decl` / nested types and the placement of classes (oracle: nesting);
-  * `api.naming` (module namespace / versioned module name: C11's model), sub-package `marshal=`;
+  * `api.naming` (module namespace / versioned module name: C11's model);
   * Jinja whitespace and everything about the printed text that Python does not observe.
 -/
 namespace GapicModel.Model.Types
@@ -392,6 +392,20 @@ def pythonImportPackage (apiPackage : Name) (apiSegs apiRoot : List Name) (deps 
 
 /-- `__protobuf__ = proto.module(manifest={…})`: top-level enums, then top-level messages -/
 def manifest (topEnums topMessages : List Name) : List Name := topEnums ++ topMessages
+
+/-- the other arguments of `__protobuf__ = proto.module(...)` (types/%proto.py.j2): `package=` is the proto
+    package OF THE FILE (`proto.meta.address.package`); `marshal=` is printed only when that differs from the
+    API's package (`api.naming.proto_package`), i.e. for a file of a SUB-PACKAGE, and names the API's package. -/
+structure ModuleHeader where
+  package : List Name
+  marshal : Option (List Name)
+deriving DecidableEq, Repr
+
+def moduleHeader (apiPkg filePkg : List Name) : ModuleHeader :=
+  ⟨filePkg, if apiPkg ≠ filePkg then some apiPkg else none⟩
+
+/-- proto-plus `define_module`: `if not marshal: marshal = package`. EXTERNAL (T3: `__protobuf__.marshal`). -/
+def ModuleHeader.marshalName (h : ModuleHeader) : List Name := h.marshal.getD h.package
 
 /-! ### Python scoping and late resolution (EXTERNAL; T3) -/
 
